@@ -404,6 +404,33 @@ def callee_param_names(m: Model, caller: FuncInfo, call: ast.Call) -> list[str]:
     return []
 
 
+def doip_timing_units(m: Model, r: Report, rid: str) -> int:
+    """ISO 13400-2 timing parameters are kept in milliseconds (TimingAndCommunicationParameters); every wait in the DoIP transport that is
+    derived from one of them must be that value in seconds (member / 1000)."""
+    DOIP_ = "gallia.transports.doip"
+    enum = m.require_class(f"{DOIP_}.TimingAndCommunicationParameters")
+    mem = m.enum_members(enum)
+    if not mem:
+        raise AnalysisError(f"{enum.qualname}: members not found")
+    n = 0
+    for f in m.functions():
+        if f.module.name != DOIP_:
+            continue
+        for c in ast.walk(f.node):
+            if not isinstance(c, ast.Call) or ast.unparse(c.func) not in ("asyncio.wait_for", "asyncio.sleep", "asyncio.timeout"):
+                continue
+            for a in list(c.args) + [k.value for k in c.keywords]:
+                used = [x.attr for x in ast.walk(a) if isinstance(x, ast.Attribute) and ast.unparse(x.value) == "TimingAndCommunicationParameters" and x.attr in mem]
+                if len(used) != 1:
+                    continue
+                n += 1
+                v = m.try_fold(f.module, a)
+                r.check(isinstance(v, (int, float)) and abs(v - mem[used[0]] / 1000) < 1e-9, rid, f"{f.qualname}#wait:{used[0]}",
+                        f"the wait `{ast.unparse(a)}` is {v} s; {used[0]} = {mem[used[0]]} ms must be waited as {mem[used[0]] / 1000} s (the timeout path "
+                        "close -> BrokenPipeError is otherwise never reached in useful time)", loc=f"{f.module.relpath}:{c.lineno}")
+    return n
+
+
 def hsfz_ack_timeout_units(m: Model, r: Report, rid: str) -> None:
     """Unit agreement of the HSFZ acknowledgement timeout between the URI producers (docs, `discover hsfz`: milliseconds) and the
     connection (seconds)."""
